@@ -34,6 +34,7 @@ import GunYu.Props.C01
 import GunYu.Props.C02
 import GunYu.Props.C02TwoRuns
 import GunYu.Props.C02Lives
+import GunYu.Props.C02Start
 import GunYu.Proofs.MaxOffset
 
 namespace GunYu.Props.C01
@@ -236,6 +237,116 @@ theorem leave_unsent_above_startPoint (c : SCfg) (evs : List Ev) (l : Leave) (hn
   split
   · exact hpos
   · exact hmax
+
+/-! the same on a target that ALREADY HOLDS records (a resumed life) -/
+
+theorem fwdItemsO_mem_offset (t : Txn) (items : List Item) :
+    ∀ x ∈ fwdItemsO t items, ∃ i ∈ items, i.offset = x.2.2 := by
+  induction items generalizing t with
+  | nil => intro x hx; cases hx
+  | cons it rest ih =>
+    intro x hx
+    simp only [fwdItemsO] at hx
+    rcases List.mem_append.mp hx with h | h
+    · refine ⟨it, List.mem_cons_self .., ?_⟩
+      simp only [fwd1O] at h
+      split at h
+      · cases h
+      · split at h
+        · simp only [List.mem_singleton] at h; rw [h]
+        · cases h
+    · obtain ⟨i, hi, he⟩ := ih _ x h
+      exact ⟨i, List.mem_cons_of_mem _ hi, he⟩
+
+/-- what is left in the queue carries the offset of an item the loop received -/
+theorem unsent_offset_received (c : SCfg) (sched : List Ev)
+    (hm : C02.SMono initS.txn initS.lastOffset sched) :
+    ∀ i ∈ (run c initS sched).1.queue, ∃ j ∈ itemsOf sched, j.offset = i.offset := by
+  intro i hi
+  have hnp : i.cmd ≠ bPing := (C02.run_ok c initS sched (qok_nil _) hm).1.2.2 i hi
+  have hx : (i.cmd, i.args, i.offset) ∈ qdO (run c initS sched).1 := by
+    unfold qdO
+    exact List.mem_filterMap.mpr ⟨i, hi, by simp [itemCmdO, hnp]⟩
+  have hcons := run_dataO c initS (cut sched)
+  rw [← run_cut, fwdO_cut_items] at hcons
+  have hq0 : qdO initS = [] := rfl
+  rw [hq0, List.nil_append] at hcons
+  have hx' : (i.cmd, i.args, i.offset) ∈ fwdItemsO initS.txn (itemsOf (cut sched)) := by
+    rw [← hcons]; exact List.mem_append_right _ hx
+  obtain ⟨j, hj, he⟩ := fwdItemsO_mem_offset _ _ _ hx'
+  exact ⟨j, (itemsOf_cut_prefix sched).subset hj, he⟩
+
+/-- **... also for a RESUMED life.** The target holds the records of earlier lives, none above
+    `start` (what `StartPoint` read: `Props.C02.StartsAt`, the unique largest offset); the run
+    receives items at or above `start` (the resumed parser's: `parserItems_ge`) and leaves in ANY
+    way. The offset the next start reads is then at most the offset of every unsent item, and
+    strictly below every unsent item that ends above `start` -- i.e. every one but the initial
+    `select <startDbId>`, which carries `start` itself (re-created by the next resumed run). -/
+theorem leave_unsent_above_startPoint_resumed (c : SCfg) (evs : List Ev) (l : Leave) (hnd : NoDone evs)
+    (hm : C02.SMono initS.txn initS.lastOffset (evs ++ lastEv l))
+    (start : Int)
+    (hge : ∀ j ∈ itemsOf (evs ++ lastEv l), start ≤ j.offset)
+    (t : TState) (hn : KeysNodup t.cps) (hq : t.queued = none) (hle : maxOffset t.cps ≤ start) :
+    ∀ i ∈ unsent (runLeave c initS evs l),
+      (startPoint (applyLog t (runLeave c initS evs l).2.flatten)).1 ≤ i.offset ∧
+      (start < i.offset →
+        (startPoint (applyLog t (runLeave c initS evs l).2.flatten)).1 < i.offset) := by
+  rw [runLeave_eq_run c initS evs l hnd]
+  generalize evs ++ lastEv l = sched at hm hge ⊢
+  intro i hi
+  have hwf := run_wf c initS sched
+  obtain ⟨_, hw, _⟩ := C02.run_ok c initS sched (qok_nil _) hm
+  have hcover := C02.pending_not_covered c sched hm
+  obtain ⟨j, hj, hje⟩ := unsent_offset_received c sched hm i hi
+  have histart : start ≤ i.offset := by rw [← hje]; exact hge j hj
+  have hge1 : ∀ o ∈ cpReqs (run c initS sched).2.flatten, -1 ≤ o := by
+    intro o ho
+    rw [cpReqs_flatten] at ho
+    have := (hw.2 _ (cp_key_mem ho)).1
+    simp only [lowkey, initS] at this
+    omega
+  have hm1 : -1 ≤ maxOffset t.cps := (le_maxOffset_iff t.cps (-1)).mpr (Or.inl (Int.le_refl _))
+  have hkeep := applyLog_keeps (run c initS sched).2.flatten t (-1) hn hm1
+    (by intro q hq'; rw [hq] at hq'; cases hq') hge1
+  -- what is stored was there before (≤ start) or was written by this run (< the unsent item)
+  have hstored : ∀ p ∈ (applyLog t (run c initS sched).2.flatten).cps, ∀ o, p.2.offset = some o →
+      o ≤ start ∨ o ∈ cpOffsets (run c initS sched).2 := by
+    intro p hp o hpo
+    have hg : (getCp (applyLog t (run c initS sched).2.flatten).cps p.1).offset = some o := by
+      unfold getCp; rw [lookup_of_mem_nodup _ hkeep.1 p hp]; exact hpo
+    rw [applyLog_bodies _ hwf t hq] at hg
+    rcases C02.stored_comes_from _ t p.1 o hg with h | h
+    · left
+      obtain ⟨r, hr, hgr⟩ := C02.mem_of_getCp_offset t.cps p.1 o h
+      have : o ≤ maxOffset t.cps :=
+        (le_maxOffset_iff t.cps o).mpr (Or.inr ⟨(p.1, r), hr, o, by rw [← hgr]; exact h, Int.le_refl _⟩)
+      omega
+    · right; rw [cpOffsetsB_bodies _ hwf] at h; exact h
+  have bound : ∀ b : Int, start ≤ b → (∀ o ∈ cpOffsets (run c initS sched).2, o ≤ b) →
+      maxOffset (applyLog t (run c initS sched).2.flatten).cps ≤ b := by
+    intro b hb hcp
+    have h2 : ¬ (b + 1 ≤ maxOffset (applyLog t (run c initS sched).2.flatten).cps) := by
+      intro h
+      rcases (le_maxOffset_iff _ _).mp h with h | ⟨p, hp, o, hpo, hle'⟩
+      · omega
+      · rcases hstored p hp o hpo with h1 | h1
+        · omega
+        · have := hcp o h1; omega
+    omega
+  have hsp : ∀ b : Int, -1 ≤ b → maxOffset (applyLog t (run c initS sched).2.flatten).cps ≤ b →
+      (startPoint (applyLog t (run c initS sched).2.flatten)).1 ≤ b := by
+    intro b hb h
+    unfold startPoint
+    simp only
+    split
+    · exact hb
+    · exact h
+  constructor
+  · exact hsp _ (by omega) (bound _ histart (fun o ho => by have := hcover o ho i hi; omega))
+  · intro hlt
+    have := hsp (i.offset - 1) (by omega)
+      (bound _ (by omega) (fun o ho => by have := hcover o ho i hi; omega))
+    omega
 
 /-! ### 3. ... so the resumed run sends it -/
 
@@ -567,5 +678,34 @@ example : True := by
     (by decide +kernel) (by decide +kernel) (by decide +kernel) (by decide +kernel)
   trivial
 example : unsent (runLeave C02.trCfg initS exitEvsD .doneCase) = [] := by decide +kernel
+
+/-! Instances for the resumed run (`Props.C02.rdPc/rdRaws/rdCfg/rdT`: resumed at 50 in database
+    5 on a target holding 50 and an older 23; the run receives all items and leaves at once): `leave_wire_ordered`,
+    `leave_unsent_not_covered_resumed_parser`, `leave_unsent_above_startPoint_resumed`. -/
+def exitRAll : List Ev := (parserItems C02.rdPc 50 C02.rdRaws).map Ev.item
+def exitRLeaveAll : Leave := .atOnce
+
+theorem exitRAll_noDone : NoDone exitRAll := by unfold NoDone; decide +kernel
+
+example : True := by
+  have hitems : itemsOf (exitRAll ++ lastEv exitRLeaveAll) = parserItems C02.rdPc 50 C02.rdRaws := by
+    decide +kernel
+  have h1 := leave_unsent_not_covered_resumed_parser C02.rdPc C02.rdCfg C02.rdRaws 50 exitRAll
+    exitRLeaveAll exitRAll_noDone hitems (by decide +kernel) (by decide +kernel) (by omega)
+  have hm := C02.resumed_parser_feeds_smono C02.rdPc C02.rdRaws 50 (exitRAll ++ lastEv exitRLeaveAll)
+    hitems (by decide +kernel) (by decide +kernel) (by omega)
+  have h2 := leave_wire_ordered C02.rdCfg exitRAll exitRLeaveAll exitRAll_noDone hm
+  have h3 := leave_unsent_above_startPoint_resumed C02.rdCfg exitRAll exitRLeaveAll exitRAll_noDone hm
+    50
+    (by rw [hitems]; exact C02.parserItems_ge C02.rdPc 50 C02.rdRaws (by decide +kernel) (by decide +kernel))
+    C02.rdT (by unfold KeysNodup; decide +kernel) rfl (by decide +kernel)
+  trivial
+/-- computed: the run received everything and left at once (ticker mode, batch count 2, no tick):
+    `select 5` and `set a 1` went out as one batch, `select 7` flushed nothing more, `set b 2` (ends
+    at 119) is still queued; no position was written, the next start reads the old (50, [5]) -/
+example : (unsent (runLeave C02.rdCfg initS exitRAll exitRLeaveAll)).map (·.offset) = [119] := by
+  decide +kernel
+example : startPoint (applyLog C02.rdT (runLeave C02.rdCfg initS exitRAll exitRLeaveAll).2.flatten) = (50, [5]) := by
+  decide +kernel
 
 end GunYu.Props.C01
